@@ -1308,6 +1308,11 @@ class World(object):
                 bv = self.exact_of_slot(b, readback=True) if not bo.scaled else None
             elif bd['val'][0] == 'x':
                 bv = None         # (fault F2: a constant the library cannot convert - the operation is rejected)
+            elif bd['val'][0] == 'n' and bd['val'][1] in ('float32', 'float16', 'longdouble'):
+                # the format INFERRED for a constant of a narrow float type follows that type's precision
+                # (np.float32 -> at most 24 bits) and need not hold the value exactly - size inference is
+                # C06's subject; the constant may legitimately carry the inaccuracy flag (seen: VERIF_SEED=1109)
+                bv = None
             else:
                 bv = V.exact(bd['val'])
             const_inexact = False
